@@ -227,6 +227,24 @@ def gen_cp(rng):
     return rng.randrange(0x10000, 0x110000)
 
 
+HOSTILE_WORDS = ['NaN', 'Infinity', '-Infinity', 'null', 'true', 'false', 'None', 'True', 'False', 'nan', 'inf', '-inf', 'NULL',
+                 'undefined', '1e5', '-0.0', '0.0', '1.0', '12', '-1', '1e+22', '5e-324', '0x10', '{', '}', '[', ']', ':', ',', '{}',
+                 '[]', '": "', ': ', '", "', '":', ',"', '\\n', '\\u0041', '\\"', '\\\\', '\\t', '\\', '#', '//', '/*', '*/', "'",
+                 '"', '\n', '\t', ' ', '    ', '\r\n', ': NaN', ': Infinity,', '[NaN]', ', null', '= NaN;', ': true', ': -Infinity\n',
+                 '\u2028', '\u00e9', '\U0001f600', '\x7f', '\x00', 'NaN,', ' NaN ', '-Infinity]', 'Infinity}', 'nullnull', 'NaNs',
+                 'InfinityWar', 'truely', 'falsetto', '"NaN"', '"Infinity"', "'NaN'"]
+HOSTILE_TEMPLATES = ['%s', '%s', ' %s', '%s ', '\t%s', '%s\t', ' %s ', 'zoom = %s (clipped)', 'fill value (%s or 0)', 'a%sb', '%s%s',
+                     'x: %s, y: %s', '{"k": %s}', '[%s, %s]', 'key %s', '%s # comment', '"%s"', '%s: %s', 'value is %s.', '(%s)',
+                     '  %s\n', '%s,%s,%s', 'pre\n    "%s": %s,\n', '\\%s', '%s\\']
+
+
+def gen_hostile_str(rng, maxlen=None):
+    """text containing JSON-significant words and fragments, alone and embedded, with and without surrounding space"""
+    tpl = rng.choice(HOSTILE_TEMPLATES)
+    s = tpl % tuple(rng.choice(HOSTILE_WORDS) for _ in range(tpl.count('%s')))
+    return [ord(c) for c in s]
+
+
 def gen_str(rng, maxlen=12):
     r = rng.random()
     if r < 0.08:
@@ -234,6 +252,8 @@ def gen_str(rng, maxlen=12):
     if r < 0.16:   # text that looks like escapes / JSON syntax
         return [ord(c) for c in rng.choice(['\\u0041', '\\n', '\\"', '"', '\\', '\\\\', '/', '</script>', '{"a": 1}', '[1,]',
                                              'null', 'NaN', '-Infinity', '1e5', ' ', '\t\r\n', ': ', ',', '\\ud83d\\ude00'])]
+    if r < 0.32:
+        return gen_hostile_str(rng)
     n = rng.randrange(1, maxlen + 1)
     return [gen_cp(rng) for _ in range(n)]
 
@@ -279,8 +299,14 @@ def gen_float(rng, nonfinite):
             return x
 
 
-def gen_scalar(rng, nonfinite=True):
+def gen_scalar(rng, nonfinite=True, strgen=None):
+    strgen = strgen or gen_str
     r = rng.random()
+    if strgen is gen_hostile_str:
+        if r < 0.5:
+            return ['s', strgen(rng)]
+        if r < 0.75 and nonfinite:
+            return ['f', rng.choice([math.nan, math.inf, -math.inf]).hex()]
     if r < 0.08:
         return ['n']
     if r < 0.16:
@@ -289,14 +315,15 @@ def gen_scalar(rng, nonfinite=True):
         return ['i', str(gen_int(rng))]
     if r < 0.68:
         return ['f', gen_float(rng, nonfinite).hex()]
-    return ['s', gen_str(rng)]
+    return ['s', strgen(rng)]
 
 
-def gen_keys(rng, n, taken=None):
+def gen_keys(rng, n, taken=None, strgen=None):
+    strgen = strgen or gen_str
     seen = set(taken or ())
     out = []
     while len(out) < n:
-        k = gen_str(rng, 8)
+        k = strgen(rng, 8)
         if tuple(k) in seen:
             k = k + [rng.randrange(97, 123), len(seen) % 10 + 48]
             if tuple(k) in seen:
@@ -306,14 +333,25 @@ def gen_keys(rng, n, taken=None):
     return out
 
 
-def gen_value(rng, depth, nonfinite=True, width=4):
+def gen_value(rng, depth, nonfinite=True, width=4, strgen=None):
     if depth <= 0 or rng.random() < 0.35:
-        return gen_scalar(rng, nonfinite)
+        return gen_scalar(rng, nonfinite, strgen)
     n = rng.choice([0, 1, 1, 2, 2, 3, width])
     if rng.random() < 0.5:
-        return ['a', [gen_value(rng, depth - 1, nonfinite, width) for _ in range(n)]]
-    ks = gen_keys(rng, n)
-    return ['o', [[k, gen_value(rng, depth - 1, nonfinite, width)] for k in ks]]
+        return ['a', [gen_value(rng, depth - 1, nonfinite, width, strgen) for _ in range(n)]]
+    ks = gen_keys(rng, n, None, strgen)
+    return ['o', [[k, gen_value(rng, depth - 1, nonfinite, width, strgen)] for k in ks]]
+
+
+def tv_has_nan(tv):
+    t = tv[0]
+    if t == 'f':
+        return tv[1] == 'nan'
+    if t == 'a':
+        return any(tv_has_nan(x) for x in tv[1])
+    if t == 'o':
+        return any(tv_has_nan(x) for _, x in tv[1])
+    return False
 
 
 def shrink_tv(tv):
@@ -365,6 +403,18 @@ class Codec:
                         [[34, 92], ['o', [[[0x10000], ['n']]]]]]]]
         for v in fixed:
             out.append({'kind': 'fixed', 'v': v})
+        nh = 80 if tier == 'quick' else 400
+        for _ in range(nh):
+            r = rng.random()
+            if r < 0.3:
+                v = ['s', gen_hostile_str(rng)]
+            elif r < 0.5:
+                v = ['a', [gen_scalar(rng, True, gen_hostile_str) for _ in range(rng.randrange(1, 5))]]
+            else:
+                v = ['o', [[k, gen_value(rng, rng.choice([0, 0, 1, 2]), True, 3, gen_hostile_str)]
+                           for k in gen_keys(rng, rng.randrange(1, 5), None, gen_hostile_str)]]
+            out.append({'kind': 'hostile', 'v': v})
+        n += nh
         while len(out) < n:
             r = rng.random()
             if r < 0.25:
@@ -636,7 +686,9 @@ def gen_affine(rng):
     return [[x.hex() for x in row] for row in m]
 
 
-def gen_ext_case(rng, depth, corrupt=None):
+def gen_ext_case(rng, depth, corrupt=None, hostile=False):
+    strgen = gen_hostile_str if hostile else None
+    nonfin = bool(hostile)
     nd = rng.choice([3, 3, 4, 4, 5, 5])
     shape = [rng.randrange(1, 4) for _ in range(nd)]
     if nd == 5 and rng.random() < 0.3:
@@ -650,22 +702,23 @@ def gen_ext_case(rng, depth, corrupt=None):
         m = multiplicity(shape, slice_dim, cls)
         if m == 0:
             continue
-        for k in gen_keys(rng, rng.choice([0, 1, 1, 2, 3]), taken):
+        for k in gen_keys(rng, rng.choice([0, 1, 1, 2, 3]) + (1 if hostile else 0), taken, strgen):
             taken.add(tuple(k))
             if cls[1] == 'const':
-                v = gen_value(rng, depth, False, 3)
+                v = gen_value(rng, depth, nonfin, 3, strgen)
             else:
                 d = rng.choice([0, 0, 1, max(0, depth - 1)])
-                v = ['a', [gen_value(rng, d, False, 3) for _ in range(m)]]
+                v = ['a', [gen_value(rng, d, nonfin, 3, strgen) for _ in range(m)]]
             entries.append([cls[0], cls[1], k, v])
     rng.shuffle(entries)
     extra = []
     if rng.random() < 0.25:
         for k in gen_keys(rng, rng.choice([1, 2]), taken | {tuple(map(ord, s)) for s in
                                                             ('global', 'time', 'vector', 'dcmmeta_shape', 'dcmmeta_affine',
-                                                             'dcmmeta_reorient_transform', 'dcmmeta_slice_dim', 'dcmmeta_version')}):
-            extra.append([k, gen_value(rng, 1, False, 2)])
-    return {'kind': ('invalid/' + corrupt) if corrupt else 'valid%dd' % nd, 'shape': shape, 'slice_dim': slice_dim,
+                                                             'dcmmeta_reorient_transform', 'dcmmeta_slice_dim', 'dcmmeta_version')},
+                          strgen):
+            extra.append([k, gen_value(rng, 1, nonfin, 2, strgen)])
+    return {'kind': ('invalid/' + corrupt) if corrupt else ('hostile%dd' % nd if hostile else 'valid%dd' % nd), 'shape': shape, 'slice_dim': slice_dim,
             'affine': gen_affine(rng), 'reorient': gen_affine(rng) if rng.random() < 0.5 else None,
             'entries': entries, 'extra': extra, 'corrupt': corrupt, 'csel': rng.randrange(1000)}
 
@@ -761,6 +814,7 @@ class Ext:
         ninv = 32 if tier == 'quick' else 160
         depth = 2 if tier == 'quick' else 4
         out = [gen_ext_case(rng, depth) for _ in range(nvalid)]
+        out += [gen_ext_case(rng, 1, None, True) for _ in range(48 if tier == 'quick' else 240)]
         out += [gen_ext_case(rng, 1, CORRUPTIONS[i % len(CORRUPTIONS)]) for i in range(ninv)]
         return out
 
@@ -830,16 +884,26 @@ class Ext:
                     nw = NiftiWrapper(img)
                     p1 = os.path.join(tmp, 'a' + suffix)
                     nw.to_filename(p1)
+                    state['p1'] = p1
                     state['nw2'] = NiftiWrapper.from_filename(p1)
                     return state['nw2'].meta_ext
 
                 def second():
                     p2 = os.path.join(tmp, 'b' + suffix)
                     state['nw2'].to_filename(p2)
+                    state['p2'] = p2
                     return NiftiWrapper.from_filename(p2).meta_ext
+
+                def raw_of(path):
+                    exts = [c for code, c in file_ext_bytes(path) if code == 0]
+                    return exts[0].decode('utf-8') if len(exts) == 1 else None
                 attempt(tag, first)
+                if 'p1' in state and 'err' not in obs['paths'][tag]:
+                    obs['paths'][tag]['file'] = raw_of(state['p1'])
                 if 'nw2' in state:
                     attempt(tag + '2', second)
+                    if 'p2' in state and 'err' not in obs['paths'][tag + '2']:
+                        obs['paths'][tag + '2']['file'] = raw_of(state['p2'])
                 else:
                     obs['paths'][tag + '2'] = {'err': 'skipped'}
         finally:
@@ -872,6 +936,8 @@ class Ext:
         if 'ok' in tj:
             for p in PATHS:
                 reser.append(text(obs['paths'].get(p, {}).get('reser')))
+                if p.startswith('nii'):
+                    reser.append(text(obs['paths'].get(p, {}).get('file')))
         return ('(%s{| Corr.ec_content := %s; Corr.ec_valid := %s; Corr.ec_to_json := %s; Corr.ec_str := %s; Corr.ec_reser := %s |})'
                 % (''.join(binds), tv_coq(obs['content']), valid, tjs, st, clist(reser)))
 
@@ -895,8 +961,10 @@ class Ext:
             r = obs['paths'].get(p)
             if r is None or 'err' in r:
                 return 'reload via %s failed: %s' % (p, (r or {}).get('err'))
-            if not r.get('eq'):
+            if not r.get('eq') and not tv_has_nan(obs['content']):      # NaN != NaN: == cannot hold, exactness below must
                 return 'reload via %s: extension not equal (==) to the original' % p
+            if p.startswith('nii') and r.get('file') != text:
+                return 'reload via %s: extension bytes stored in the file are not to_json() of the extension' % p
             if not r.get('exact'):
                 return 'reload via %s: content differs (types, float bits, nesting or key order)' % p
             if not r.get('order'):
@@ -1052,7 +1120,7 @@ class Hist:
         n = 96 if tier == 'quick' else 480
         out = []
         for i in range(n):
-            c = gen_ext_case(rng, 1)
+            c = gen_ext_case(rng, 1, None, i % 3 == 2)
             mode = ['save_edit_save', 'load_edit_save'][i % 2]
             entries = [list(e) for e in c['entries']]
             nedits = rng.choice([1, 1, 2, 2, 3])
@@ -1219,7 +1287,7 @@ class Hist:
             r = pt.get('reload') or {}
             if 'err' in r:
                 return '%s: reading the file back failed: %s' % (w, r['err'])
-            if not r.get('eq'):
+            if not r.get('eq') and not tv_has_nan(pt['cur']):
                 return '%s: extension read back is not equal (==) to the edited in-memory extension' % w
             if not r.get('exact') or not r.get('order'):
                 return '%s: extension read back differs from the edited in-memory extension (keys, classes, values or order)' % w
